@@ -2,7 +2,7 @@
    Model: UV.C18.Model.script_run (cmds/script.c) over the reader model of C06. *)
 From Coq Require Import NArith List Bool.
 Import ListNotations.
-Require Import UV.C06.Model UV.C06.Proofs UV.C18.Model UV.C18.Proofs UV.C18.Filter UV.C18.FilterProofs.
+Require Import UV.C06.Model UV.C06.MergeProofs UV.C06.Proofs UV.C18.Model UV.C18.Proofs UV.C18.Filter UV.C18.FilterProofs UV.C18.MoreProofs.
 Require UV.Mcount.Model UV.Mcount.Forest UV.Mcount.ScriptCb.
 Local Open Scope N_scope.
 
@@ -84,3 +84,42 @@ Theorem C18_record_time_legacy_refuted :
   ScriptCb.bal [] (ScriptCb.cbs true ScriptCb.sw_cfg ScriptCb.sw_events (Mcount.Model.init, [])) = Some [].
 Proof. exact ScriptCb.legacy_unpaired. Qed.
 Print Assumptions C18_record_time_legacy_refuted.
+
+(* ---- clause by clause ---- *)
+(* "calls uftrace_begin once ... then uftrace_end once": exactly one of each, first and last, nothing
+   but entry/exit callbacks in between - for every input, UFTRACE_FUNCS list, --tid, -D, -F, -N *)
+Theorem C18_begin_end_exactly_once : forall o forks funcs sel tasks,
+  once_begin_end (script_opts o forks funcs sel tasks).
+Proof. exact begin_end_once. Qed.
+Print Assumptions C18_begin_end_exactly_once.
+
+Theorem C18_begin_end_exactly_once_plain : forall forks funcs sel tasks,
+  once_begin_end (script_run forks funcs sel tasks).
+Proof. exact begin_end_once_plain. Qed.
+Print Assumptions C18_begin_end_exactly_once_plain.
+
+(* "for the same data and options" with --tid: the callbacks of a parent-closed selection of
+   well-formed tasks are exactly those tasks' callbacks of the full run *)
+Theorem C18_tid_selects : forall forks sel tasks,
+  forallb wf_task tasks = true -> parent_closed (selected sel) tasks ->
+  script_run forks [] sel tasks = filter (cb_selected sel) (script_run forks [] None tasks).
+Proof. exact script_tid_selects. Qed.
+Print Assumptions C18_tid_selects.
+
+(* data with LOST markers: a marker gives no callback; every record in a depth-consistent stretch after
+   a marker of its task is passed with depth = its depth field (what replay shows) *)
+Theorem C18_lost_resync : forall forks sel tasks,
+  exists es, script_run forks [] sel tasks = CBegin :: map cb_of_event es ++ [CEnd] /\
+             aligned (merge (mask_queues sel tasks 0)) (marks (merge (mask_queues sel tasks 0)) (T0 tasks)) es.
+Proof. exact script_lost_resync. Qed.
+Print Assumptions C18_lost_resync.
+
+(* "properly paired entry/exit callbacks" at replay time: a task whose stream is the trace of a call
+   forest (with calls still open at the end) gets properly paired callbacks *)
+Theorem C18_replay_time_paired : forall forks sel tasks i d f t,
+  forallb wf_task tasks = true -> selected sel i = true ->
+  k_parent (nth i tasks (mktask None [])) = None ->
+  k_recs (nth i tasks (mktask None [])) = flat_forest d f ++ flat_tail d t ->
+  paired [] (filter (of_cb_task i) (script_run forks [] sel tasks)) = true.
+Proof. exact script_replay_time_paired. Qed.
+Print Assumptions C18_replay_time_paired.
